@@ -3,6 +3,7 @@ mod calc;
 mod cross;
 mod drivers;
 mod emit;
+mod field;
 mod float;
 mod prog;
 mod registry;
@@ -120,6 +121,17 @@ fn main() {
             let k: f64 = arg(&args, "--k").and_then(|x| x.parse().ok()).unwrap_or(64.0);
             let r = float::load(&files).and_then(|t| cross::load_members(&files).and_then(|ms| cross::run(&t, &ms, &progs, seed, k)));
             match r {
+                Ok(v) => println!("{v}"),
+                Err(e) => {
+                    eprintln!("tool error: {e}");
+                    std::process::exit(2);
+                }
+            }
+        }
+        "field" => {
+            let seed: u64 = arg(&args, "--seed").and_then(|x| x.parse().ok()).unwrap_or(1);
+            let samples: usize = arg(&args, "--samples").and_then(|x| x.parse().ok()).unwrap_or(4);
+            match field::run(args.get(2).expect("field <file>"), seed, samples) {
                 Ok(v) => println!("{v}"),
                 Err(e) => {
                     eprintln!("tool error: {e}");
